@@ -180,12 +180,21 @@ theorem C15_ticket_roundtrip (cfg : Cfg) (hm : 1000 ≤ cfg.maxAlloc) (t : Ticke
     ∃ b, serializeTicket t = .ok b ∧ deserializeTicket cfg b = .ok t :=
   ⟨_, (ticket_roundtrip cfg hm t h).1, (ticket_roundtrip cfg hm t h).2⟩
 
+/-- the secp256k1 generator, compressed: a key `ParsePubKey` accepts and returns unchanged -/
+def gKey : Bytes := (2 : UInt8) :: toBE 32 0x79BE667EF9DCBBAC55A06295CE870B07029BFCDB2DCE28D959F2815B16F81798
+
+set_option maxRecDepth 20000 in
+theorem gKey_wf : keyWF gKey := by
+  constructor
+  · decide
+  · decide +kernel
+
 /-- a populated ticket used for non-vacuity -/
 def exampleTicket : Ticket :=
   { id := List.replicate 8 1, version := 1, state := 4,
-    offer := { capacity := 1000000, pushAmt := 5, leaseDuration := 2016, sigOfferDigest := some ⟨5, 9⟩,
-               auto := true, unannounced := true },
-    recipient := some { multiSigKeyIndex := 7 },
+    offer := { capacity := 1000000, pushAmt := 5, leaseDuration := 2016, signPubKey := some gKey,
+               sigOfferDigest := some ⟨5, 9⟩, auto := true, unannounced := true },
+    recipient := some { nodePubKey := some gKey, multiSigKeyIndex := 7 },
     order := some { bidNonce := List.replicate 32 3, sigOrderDigest := some ⟨1, 1⟩ },
     execution := some { pendingChannelID := List.replicate 32 9 } }
 
@@ -195,11 +204,13 @@ theorem exampleTicket_wf : exampleTicket.wf := by
   refine ⟨by decide, by decide, by decide, ?_, ?_, ?_, ?_⟩
   · unfold Offer.wf
     refine ⟨by decide, by decide, by decide, ?_, ?_⟩
-    · intro k hk; cases hk
+    · intro k hk; injection hk with hk; subst hk; exact gKey_wf
     · intro g hg; injection hg with hg; subst hg; decide
   · intro r hr; injection hr with hr; subst hr
     unfold Recipient.wf
-    refine ⟨by decide, ?_, ?_⟩ <;> (intro k hk; cases hk)
+    refine ⟨by decide, ?_, ?_⟩
+    · intro k hk; injection hk with hk; subst hk; exact gKey_wf
+    · intro k hk; cases hk
   · intro o ho; injection ho with ho; subst ho
     unfold Order.wf
     refine ⟨by decide, ?_⟩
